@@ -26,6 +26,12 @@ def rule_val(a):
         return {"exclMin": LO}
     if r == "xmax":
         return {"exclMax": HI}
+    if r == "range":
+        return {"min": LO, "max": HI}
+    if r == "xrange":
+        return {"exclMin": LO, "exclMax": HI}
+    if r == "lenrange":
+        return {"minLen": LO, "maxLen": HI}
     if r == "minlen":
         return {"minLen": LO}
     if r == "maxlen":
